@@ -402,9 +402,9 @@ Proof.
     + apply IH; assumption.
 Qed.
 
-Lemma walk_in root l p : NoDup (map fst l) -> (In p (walk root l) <-> in_walk root (lookup l) p = true).
+Lemma walk_in l p : NoDup (map fst l) -> (In p (walk l) <-> in_walk (lookup l) p = true).
 Proof.
-  intros ND. unfold walk, in_walk. destruct (should_skip_name root); cbn [negb andb]; [split; [contradiction|discriminate]|].
+  intros ND. unfold walk, in_walk.
   rewrite in_map_iff. split.
   - intros [[q e] [H1 H2]]. cbn in H1. subst q. apply filter_In in H2 as [H2 H3].
     apply (Permutation_in _ (isort_perm l)) in H2. rewrite (in_lookup _ _ _ ND H2). exact H3.
@@ -420,9 +420,9 @@ Proof.
   intros I. apply N. apply in_map_iff in I as [y [Y1 Y2]]. apply filter_In in Y2 as [Y2 _].
   rewrite <- Y1. apply in_map. exact Y2.
 Qed.
-Lemma walk_nodup root l : NoDup (map fst l) -> NoDup (walk root l).
+Lemma walk_nodup l : NoDup (map fst l) -> NoDup (walk l).
 Proof.
-  intros ND. unfold walk. destruct (should_skip_name root); [constructor|].
+  intros ND. unfold walk.
   apply filter_fst_nodup. eapply Permutation_NoDup; [|exact ND].
   apply Permutation_map. symmetry. apply isort_perm.
 Qed.
@@ -514,11 +514,11 @@ Notation char := (char generate keep lazy now).
 Notation nfail := (nfail generate keep lazy).
 
 (* the events of a run *)
-Definition events_ok (root : bytes) (l : listing) (es : list path) : Prop :=
-  NoDup es /\ (forall p, In p (walk root l) -> In p es)
-  /\ (forall p, In p es -> In p (walk root l) \/ late_gen (lookup l) p).
+Definition events_ok (l : listing) (es : list path) : Prop :=
+  NoDup es /\ (forall p, In p (walk l) -> In p es)
+  /\ (forall p, In p es -> In p (walk l) \/ late_gen (lookup l) p).
 
-Lemma walk_events_ok root l : NoDup (map fst l) -> events_ok root l (walk root l).
+Lemma walk_events_ok l : NoDup (map fst l) -> events_ok l (walk l).
 Proof. intros ND. split; [apply walk_nodup; exact ND|]. split; auto. Qed.
 
 Lemma nfail_pos t es : nfail t es <> O <-> exists p, In p es /\ snd (effect t p) <> O.
@@ -534,18 +534,18 @@ Proof.
 Qed.
 
 (* membership of the two possible writers of a _templ.go path *)
-Lemma template_in_events root l es src e :
-  NoDup (map fst l) -> events_ok root l es -> lookup l src = Some e -> source_of src = None ->
-  (In src es <-> in_walk root (lookup l) src = true).
+Lemma template_in_events l es src e :
+  NoDup (map fst l) -> events_ok l es -> lookup l src = Some e -> source_of src = None ->
+  (In src es <-> in_walk (lookup l) src = true).
 Proof.
-  intros ND [_ [E1 E2]] L S. rewrite <- (walk_in root l src ND). split; [|apply E1].
+  intros ND [_ [E1 E2]] L S. rewrite <- (walk_in l src ND). split; [|apply E1].
   intros I. destruct (E2 _ I) as [W|[s [S' _]]]; [exact W|congruence].
 Qed.
-Lemma orphan_in_events root l es q src :
-  NoDup (map fst l) -> events_ok root l es -> source_of q = Some src -> lookup l src = None ->
-  (In q es <-> in_walk root (lookup l) q = true).
+Lemma orphan_in_events l es q src :
+  NoDup (map fst l) -> events_ok l es -> source_of q = Some src -> lookup l src = None ->
+  (In q es <-> in_walk (lookup l) q = true).
 Proof.
-  intros ND [_ [E1 E2]] S L. rewrite <- (walk_in root l q ND). split; [|apply E1].
+  intros ND [_ [E1 E2]] S L. rewrite <- (walk_in l q ND). split; [|apply E1].
   intros I. destruct (E2 _ I) as [W|[s [S' T]]]; [exact W|]. rewrite S in S'. inversion S'; subst. contradiction.
 Qed.
 
@@ -553,14 +553,14 @@ Lemma mem_iff p es (P : Prop) : (In p es <-> P) -> (mem p es = true <-> P).
 Proof. intros H. rewrite mem_in. exact H. Qed.
 
 Theorem char_meets_spec root l es :
-  wf_tree generate lazy root l = true -> should_skip_name root = false -> events_ok root l es ->
+  wf_tree generate lazy root l = true -> events_ok l es ->
   forall (T : fs) (n : nat), (forall q, T q = char (lookup l) es q) -> n = nfail (lookup l) es ->
   spec_holds generate keep l T (exit_fail n).
 Proof.
-  intros WF R EV T n HT Hn. destruct (wf_facts _ _ _ _ WF) as [ND [_ [NPD LP]]].
+  intros WF EV T n HT Hn. destruct (wf_facts _ _ _ _ WF) as [ND [_ [NPD LP]]].
   set (t := lookup l) in *.
-  assert (INW : forall p e, t p = Some e -> in_walk root t p = emitted (p, e)).
-  { intros p e L. unfold in_walk. rewrite R, L. reflexivity. }
+  assert (INW : forall p e, t p = Some e -> in_walk t p = emitted (p, e)).
+  { intros p e L. unfold in_walk. rewrite L. reflexivity. }
   repeat split.
   - (* contents *)
     intros q. rewrite HT. unfold spec_content. rewrite outside_visible, template_of_source. fold t.
@@ -569,7 +569,7 @@ Proof.
     destruct (target_matches _ _ G) as [M1 [M2 F]].
     destruct (t src) as [e|] eqn:TS.
     + (* the template exists *)
-      pose proof (template_in_events root l es src e ND EV TS SS) as IE. fold t in IE. rewrite (INW _ _ TS) in IE.
+      pose proof (template_in_events l es src e ND EV TS SS) as IE. fold t in IE. rewrite (INW _ _ TS) in IE.
       destruct src as [sd sn]. destruct q as [qd qn]. cbn [fst snd] in *. subst sd.
       unfold emitted in IE. rewrite M1 in IE.
       destruct e as [c mt|]; [|exfalso; apply NPD in TS; cbn in TS; congruence].
@@ -584,17 +584,17 @@ Proof.
         -- destruct (generate (qd, sn) c) as [code|]; cbn [fst apply_action]; [rewrite upd_same|]; reflexivity.
       * assert (Me : mem (qd, sn) es = false) by (apply mem_false; intros I; apply IE in I; discriminate). rewrite Me. reflexivity.
     + (* orphan *)
-      pose proof (orphan_in_events root l es q src ND EV S TS) as IE. fold t in IE.
+      pose proof (orphan_in_events l es q src ND EV S TS) as IE. fold t in IE.
       assert (Ef : effect t q = if keep then (ANone, O) else (ARemove q, O)).
       { unfold Walk.effect. rewrite S, TS. reflexivity. }
       destruct (mem q es) eqn:Me.
-      * apply mem_in, IE in Me. unfold in_walk in Me. rewrite R in Me. cbn [negb andb] in Me.
+      * apply mem_in, IE in Me. unfold in_walk in Me.
         destruct (t q) as [e|] eqn:TQ; [|discriminate]. unfold emitted in Me. destruct q as [qd qn].
         apply andb_prop in Me as [Me _]. apply andb_prop in Me as [V _]. cbn [fst] in *. rewrite V.
         rewrite Ef. destruct keep; cbn [fst apply_action]; [rewrite TQ; reflexivity|rewrite upd_same; reflexivity].
       * destruct (visible_dir (fst q)) eqn:V; [|reflexivity]. destruct keep; [reflexivity|].
         destruct (t q) as [e|] eqn:TQ; [|reflexivity]. exfalso.
-        assert (X : in_walk root t q = true).
+        assert (X : in_walk t q = true).
         { rewrite (INW _ _ TQ). destruct q as [qd qn]. cbn [fst snd] in *. unfold emitted. rewrite V, M2. cbn [andb].
           destruct e; [reflexivity|]. apply NPD in TQ. cbn in TQ. congruence. }
         apply IE, mem_in in X. congruence.
@@ -605,14 +605,14 @@ Proof.
     pose proof (proj1 (source_target _ _) S) as G. pose proof (target_not_source _ _ G) as SS.
     destruct (target_matches _ _ G) as [M1 [M2 F]].
     destruct (t src) as [e|] eqn:TS.
-    + pose proof (template_in_events root l es src e ND EV TS SS) as IE. fold t in IE. rewrite (INW _ _ TS) in IE.
+    + pose proof (template_in_events l es src e ND EV TS SS) as IE. fold t in IE. rewrite (INW _ _ TS) in IE.
       assert (Me : mem src es = false).
       { apply mem_false. intros I. apply IE in I. destruct src as [sd sn]. unfold emitted in I.
         cbn [fst snd] in *. subst sd. rewrite MT in I. discriminate. }
       rewrite Me. reflexivity.
-    + pose proof (orphan_in_events root l es q src ND EV S TS) as IE. fold t in IE.
+    + pose proof (orphan_in_events l es q src ND EV S TS) as IE. fold t in IE.
       assert (Me : mem q es = false).
-      { apply mem_false. intros I. apply IE in I. unfold in_walk in I. rewrite R in I. cbn [negb andb] in I.
+      { apply mem_false. intros I. apply IE in I. unfold in_walk in I.
         destruct (t q) as [e|]; [|discriminate]. destruct q as [qd qn]. unfold emitted in I. cbn [fst] in MT.
         rewrite MT in I. discriminate. }
       rewrite Me. reflexivity.
@@ -622,7 +622,7 @@ Proof.
     unfold Walk.effect in P. destruct (source_of p) as [s|] eqn:S.
     { fold t in P. destruct (t s); [cbn in P; congruence|]. destruct keep; cbn in P; congruence. }
     destruct (E2 _ I) as [W|[s [S' _]]]; [|congruence].
-    apply (walk_in root l p ND) in W. fold t in W.
+    apply (walk_in l p ND) in W. fold t in W.
     fold t in P. destruct (t p) as [e|] eqn:TP; [|cbn in P; congruence].
     rewrite (INW _ _ TP) in W.
     destruct (target_of p) as [g|] eqn:G; [|cbn in P; congruence].
@@ -641,7 +641,7 @@ Proof.
     destruct (t src) as [[c mt|]|] eqn:TS; try discriminate.
     destruct (generate src c) eqn:GN; [discriminate|].
     pose proof (target_not_source _ _ G) as SS. destruct (target_matches _ _ G) as [M1 _].
-    pose proof (template_in_events root l es src _ ND EV TS SS) as IE. fold t in IE. rewrite (INW _ _ TS) in IE.
+    pose proof (template_in_events l es src _ ND EV TS SS) as IE. fold t in IE. rewrite (INW _ _ TS) in IE.
     assert (Ie : In src es).
     { apply IE. destruct src as [sd sn]. unfold emitted. cbn [fst snd] in *. rewrite V, M1. reflexivity. }
     unfold exit_fail. apply negb_true_iff, Nat.eqb_neq. subst n. apply nfail_pos. exists src. split; [exact Ie|].
@@ -655,8 +655,8 @@ Qed.
 
 (* a second run leaves the contents of every path as they are *)
 Theorem second_run_contents root l es now2 l1 es2 :
-  wf_tree generate lazy root l = true -> events_ok root l es ->
-  NoDup (map fst l1) -> (forall q, lookup l1 q = char (lookup l) es q) -> events_ok root l1 es2 ->
+  wf_tree generate lazy root l = true -> events_ok l es ->
+  NoDup (map fst l1) -> (forall q, lookup l1 q = char (lookup l) es q) -> events_ok l1 es2 ->
   forall q, content_of (WalkProof.char generate keep lazy now2 (lookup l1) es2 q) = content_of (lookup l1 q).
 Proof.
   intros WF EV ND1 H1 EV2 q. destruct (wf_facts _ _ _ _ WF) as [ND [_ [NPD LP]]].
@@ -676,8 +676,8 @@ Proof.
     (* src was an event of the first run as well *)
     assert (I1 : In src es).
     { apply mem_in in M2. assert (T1S' : t1 src = Some (File c mt)) by congruence.
-      apply (template_in_events root l1 es2 src _ ND1 EV2 T1S' SS) in M2. fold t1 in M2.
-      apply (template_in_events root l es src _ ND EV TS SS). fold t.
+      apply (template_in_events l1 es2 src _ ND1 EV2 T1S' SS) in M2. fold t1 in M2.
+      apply (template_in_events l es src _ ND EV TS SS). fold t.
       unfold in_walk in *. rewrite T1S' in M2. rewrite TS. exact M2. }
     apply mem_in in I1. rewrite I1 in T1Q. rewrite T1Q.
     unfold Walk.effect. rewrite SS, TS, G.
@@ -685,8 +685,8 @@ Proof.
     + cbn [fst apply_action]. apply andb_prop in LZ as [LZ1 LZ2]. unfold newer in LZ2.
       destruct (t q) as [[gc gmt|]|] eqn:TQ; try discriminate.
       assert (V : visible_dir (fst src) = true).
-      { apply mem_in in I1. apply (template_in_events root l es src _ ND EV TS SS) in I1. fold t in I1.
-        unfold in_walk in I1. rewrite TS in I1. apply andb_prop in I1 as [_ I1]. destruct src as [sd sn].
+      { apply mem_in in I1. apply (template_in_events l es src _ ND EV TS SS) in I1. fold t in I1.
+        unfold in_walk in I1. rewrite TS in I1. destruct src as [sd sn].
         unfold emitted in I1. apply andb_prop in I1 as [I1 _]. apply andb_prop in I1 as [I1 _]. exact I1. }
       rewrite (LP LZ1 src c mt q gc gmt V TS G TQ LZ2) in GN. inversion GN. reflexivity.
     + rewrite GN. cbn [fst apply_action]. rewrite upd_same. reflexivity.
@@ -698,12 +698,12 @@ Proof.
     (* q exists after the first run and is an event of the second: impossible, the first run removed it *)
     exfalso. apply mem_in in M2.
     assert (T1N : t1 src = None) by congruence.
-    apply (orphan_in_events root l1 es2 q src ND1 EV2 S T1N) in M2. fold t1 in M2.
-    unfold in_walk in M2. destruct (t1 q) as [e|] eqn:T1Q'; [|rewrite andb_false_r in M2; discriminate].
+    apply (orphan_in_events l1 es2 q src ND1 EV2 S T1N) in M2. fold t1 in M2.
+    unfold in_walk in M2. destruct (t1 q) as [e|] eqn:T1Q'; [|discriminate].
     destruct (mem q es) eqn:M1.
     + rewrite (Ef t TS) in T1Q. cbn [fst apply_action] in T1Q. rewrite upd_same in T1Q. discriminate.
-    + assert (X : in_walk root t q = true) by (unfold in_walk; rewrite <- T1Q; exact M2).
-      apply (orphan_in_events root l es q src ND EV S TS) in X. apply mem_in in X. congruence.
+    + assert (X : in_walk t q = true) by (unfold in_walk; rewrite <- T1Q; exact M2).
+      apply (orphan_in_events l es q src ND EV S TS) in X. apply mem_in in X. congruence.
 Qed.
 
 (* the executable check decides the specification for finite after-trees *)
@@ -741,11 +741,11 @@ Variable now : N.
 Notation steps := (steps generate keep lazy now).
 
 Lemma generate_spec root l w es c :
-  wf_tree generate lazy root l = true -> should_skip_name root = false -> events_ok root l es ->
+  wf_tree generate lazy root l = true -> events_ok l es ->
   steps w (start_cfg (lookup l) es) c -> finished c ->
   spec_holds generate keep l (ctree c) (exit_fail (cerrs c)).
 Proof.
-  intros WF R EV St Fi. destruct (interleaving_char generate keep lazy now w (lookup l) es c (proj1 EV) St Fi) as [A B].
+  intros WF EV St Fi. destruct (interleaving_char generate keep lazy now w (lookup l) es c (proj1 EV) St Fi) as [A B].
   eapply char_meets_spec; eassumption.
 Qed.
 
@@ -762,9 +762,9 @@ Proof.
 Qed.
 
 Lemma second_run_noop root l w es c now2 w2 l1 es2 c2 :
-  wf_tree generate lazy root l = true -> events_ok root l es ->
+  wf_tree generate lazy root l = true -> events_ok l es ->
   steps w (start_cfg (lookup l) es) c -> finished c ->
-  NoDup (map fst l1) -> (forall q, lookup l1 q = ctree c q) -> events_ok root l1 es2 ->
+  NoDup (map fst l1) -> (forall q, lookup l1 q = ctree c q) -> events_ok l1 es2 ->
   Walk.steps generate keep lazy now2 w2 (start_cfg (lookup l1) es2) c2 -> finished c2 ->
   forall q, content_of (ctree c2 q) = content_of (ctree c q).
 Proof.
